@@ -157,3 +157,32 @@ pub struct D3OrderedMissingNull {
     pub b: Option<i32>,
     pub c: i32,
 }
+
+// ---- row derives
+use scylla_cql_core::{DeserializeRow, SerializeRow};
+
+#[derive(SerializeRow, DeserializeRow, Debug, PartialEq)]
+#[scylla(crate = scylla_cql_core)]
+pub struct R3 {
+    pub a: i32,
+    pub b: i32,
+    pub c: i32,
+}
+
+#[derive(SerializeRow, DeserializeRow, Debug, PartialEq)]
+#[scylla(crate = scylla_cql_core, flavor = "enforce_order")]
+pub struct R3Ordered {
+    pub a: i32,
+    pub b: i32,
+    pub c: i32,
+}
+
+#[derive(SerializeRow, DeserializeRow, Debug, PartialEq)]
+#[scylla(crate = scylla_cql_core)]
+pub struct R3RenameSkip {
+    #[scylla(rename = "x")]
+    pub a: i32,
+    #[scylla(skip)]
+    pub b: i32,
+    pub c: i32,
+}
